@@ -1,4 +1,4 @@
-import LoguruModel.Buffer.Lemmas
+import LoguruModel.Buffer.LayerLemmas
 /-
 C09 – a returned log call is durable across a crash; normal interpreter exit flushes everything.
 
@@ -10,6 +10,13 @@ the `atexit` registration.  Quantifiers: all message sequences, all crash points
 AND between any two primitives of the call in flight, rotation included), all message shapes
 (any characters: interior line ends, exception text, non-ASCII), all reachable handler states at
 exit.  CPython's `TextIOWrapper` and process death are MODELLED (Buffer/Model.lean), not verified.
+
+Round 5 adds: the other `open()` arguments of the file sink (`mode`, `buffering`, `delay`, `watch` with
+the file moved away by another process), the LAYERS of a text stream (TextIOWrapper over BufferedWriter
+or a raw file, `write_through`, size-driven spills as an oracle – Buffer/Layers.lean), the REGENERATED
+tail of `Handler.emit` with every interleaving of logging calls and worker steps, a worker thread that
+has ended before the exit, and the REGENERATED `StreamSink.stop` / `_stoppable`, `FileSink.__init__`
+tail (`delay`) and step order of `_terminate_file`.
 -/
 namespace C09
 open Py Buffer
@@ -156,7 +163,7 @@ theorem exit_stops_every_handler (lg : Logger) (hl : ∀ h ∈ lg.handlers, Live
   rw [exit_eq lg hl]
   refine ⟨rfl, rfl, ?_⟩
   intro h hh
-  obtain ⟨_, _, _, _, e, _⟩ := hl h hh
+  obtain ⟨_, _, _, _, e, _, _⟩ := hl h hh
   simp [Handler.final, e]
 
 /-- the worker thread of an enqueued handler, as the REGENERATED loop body has it: from any sink state
@@ -175,6 +182,20 @@ theorem falsy_sentinel_test_loses_messages (k : Sink) (c : Call) (rest : List Ca
     workerRun [.get, .confirmIfTrue, .breakIfFalsy, .write] k (c :: rest) = (k, rest) := by
   simp [workerRun, workerIter, he]
 
+/-- the worker thread survives whatever travels through its queue (REGENERATED loop body, the `try` around
+`queue.get()` included): an item that cannot be un-pickled – whatever the exception class – is reported
+and SKIPPED; every message before and after it is written, in order, and nothing stays unread -/
+theorem worker_survives_unreadable_items (k : Sink) (q : List QItem) (hq : ∀ it ∈ q, it ≠ .sentinel) :
+    workerRunQ Gen.workerOps k q = ((msgsOf q).foldl Sink.write k, []) ∧
+    workerIter Gen.workerOps k .poison = some k :=
+  ⟨workerRunQ_all q hq k, workerIter_poison k⟩
+
+/-- REFUTING WITNESS for the broken shape "some error of `queue.get()` ends the loop": one record that
+cannot be rebuilt ends the worker thread; every message accepted after it is never read -/
+theorem get_error_must_not_end_the_worker (k : Sink) (rest : List QItem) :
+    workerRunQ [.getBreakOnError, .breakIfNone, .confirmIfTrue, .write] k (.poison :: rest) = (k, rest) := by
+  simp [workerRunQ, workerIter]
+
 /-- REFUTING WITNESS for the broken shape "`stop()` waits for the worker only for a bounded time"
 (`self._thread.join(timeout)`): when the backlog outlasts the bound, `stop()` returns, the sink is
 stopped, and the queued messages – whose logging calls had returned – are in no sink -/
@@ -184,7 +205,7 @@ theorem bounded_join_loses_the_backlog (h : Handler) (he : h.enqueue = true) (ho
        (true, .closeQueue), (false, .sinkStop)]
     let h' := (bounded.foldl runStopOp (h, false)).1
     h'.sink = h.sink.stop ∧ h'.queue = h.queue ∧ h'.joined = h.joined := by
-  obtain ⟨enq, own, q, sk, st, se, jo, hu⟩ := h
+  obtain ⟨enq, own, q, sk, st, se, jo, hu, wd⟩ := h
   simp only at he ho; subst he ho
   simp [runStopOp]
 
@@ -194,21 +215,21 @@ did not create is stopped all the same – its sink is stopped (file closed, end
 retention, stream `stop()`), exactly as in the creating process -/
 theorem forked_process_exit_stops_inherited_handlers (lg : Logger)
     (hf : ∀ h ∈ lg.handlers, h.enqueue = false ∧ h.owner = false ∧ h.stopped = false ∧ h.sentinel = false ∧
-      h.joined = false ∧ h.hung = false ∧ h.queue = []) :
+      h.joined = false ∧ h.hung = false ∧ h.queue = [] ∧ h.workerDead = false) :
     (interpreterExit lg).handlers = [] ∧
     (interpreterExit lg).removed = lg.removed ++ lg.handlers.map (fun h => { h with stopped := true, sink := h.sink.stop }) := by
   have hl : ∀ h ∈ lg.handlers, Live h := by
     intro h hh
-    obtain ⟨a, _, c, d, e, f, g⟩ := hf h hh
-    exact ⟨c, by simp [a], d, e, f, fun _ => g⟩
+    obtain ⟨a, _, c, d, e, f, g, w⟩ := hf h hh
+    exact ⟨c, by simp [a], d, e, f, fun _ => g, w⟩
   rw [exit_eq lg hl]
   refine ⟨rfl, ?_⟩
   show lg.removed ++ List.map Handler.final lg.handlers = _
   congr 1
   apply List.map_congr_left
   intro h hh
-  obtain ⟨a, _, _, d, e, _, g⟩ := hf h hh
-  obtain ⟨enq, own, q, sk, st, se, jo, hu⟩ := h
+  obtain ⟨a, _, _, d, e, _, g, _⟩ := hf h hh
+  obtain ⟨enq, own, q, sk, st, se, jo, hu, wd⟩ := h
   simp only at a d e g; subst a d e g
   simp [Handler.final]
 
@@ -220,7 +241,7 @@ theorem owner_guard_must_stay_under_enqueue (h : Handler) (he : h.enqueue = fals
       [(false, .setStopped), (false, .returnIfNotOwner), (true, .putSentinel), (true, .joinWorker),
        (true, .closeQueue), (false, .sinkStop)]
     (hoisted.foldl runStopOp (h, false)).1.sink = h.sink := by
-  obtain ⟨enq, own, q, sk, st, se, jo, hu⟩ := h
+  obtain ⟨enq, own, q, sk, st, se, jo, hu, wd⟩ := h
   simp only at he ho; subst he ho
   simp [runStopOp]
 
@@ -253,7 +274,7 @@ theorem exit_drains_stream_sink (h : Handler) (s : Stream) (st : Bool) (n : Nat)
     ∃ s', h.final.sink = .stream s' st (if st then n + 1 else n) ∧ s'.file.pending = [] ∧
       s'.file.os = s.file.os ++ texts h.queue := by
   refine ⟨runStream s (h.queue.map (·.2)), ?_, ?_⟩
-  · simp [Handler.final, hs, sink_fold_stream, Sink.stop]
+  · simp [Handler.final, hs, sink_fold_stream, Sink.stop, streamStopCalls, Gen.streamStopOps, runStreamStopOp]
   · have := runStream_flushed (h.queue.map (·.2)) s hf hc hp
     exact ⟨this.1, this.2.1⟩
 
@@ -272,8 +293,8 @@ def every_returned_call_is_durable_statement : Prop :=
 failure: a text without `\n`/`\r` stays in the user-space buffer, the disk is unchanged -/
 theorem no_line_end_stays_pending (s : FileSink) (h : Ready s) (m : Str) (hm : hasLineEnd m = false) :
     (s.write false m).durable = s.durable ∧ (s.write false m).pendingText = m := by
-  obtain ⟨f, hf, hc, hl, hp, ha⟩ := h
-  obtain ⟨rot, atp, file, hr, hcm, hrt, nc, nr⟩ := s
+  obtain ⟨f, hf, hc, hl, hp, ha, _⟩ := h
+  obtain ⟨rot, atp, file, hr, hcm, hrt, nc, nr, bu, mo⟩ := s
   simp only at hf ha; subst hf ha
   obtain ⟨os, pe, lb, cl⟩ := f
   simp only at hc hl hp; subst hc hl hp
@@ -299,6 +320,277 @@ theorem every_returned_call_is_durable_statement_false : ¬ every_returned_call_
   revert this
   decide
 
+
+/-! ### (f) round 5 – other `open()` arguments of the file sink: `mode`, `buffering`, `delay` -/
+
+/-- the constructor opens the file at once exactly when `delay` is false (REGENERATED from the tail of
+`FileSink.__init__`) -/
+theorem init_opens_unless_delay (delay : Bool) : Gen.initOpens delay = !delay := by
+  simp [Gen.initOpens]
+
+/-- claim (a) does not depend on `mode`: a sink given `buffering=1` explicitly and ANY mode (`"a"`,
+`"w"`, `"x"` on a fresh path) keeps every acked text of every call sequence (rotations included); what
+the mode decides is only what survives of the EARLIER content -/
+theorem line_buffered_any_mode_crash_preserves_acked (existing : Option Str) (rot comp ret : Bool) (mo : OpenMode)
+    (hx : mo = .exclusive → existing = none) (cs : List Call) (hall : ∀ c ∈ cs, hasLineEnd c.2 = true) (k : Nat) :
+    let s := runCalls (FileSink.newWith existing rot comp ret 1 mo false) (cs.take k)
+    s.durable = mo.keeps existing ++ texts (cs.take k) ∧ s.pendingText = [] := by
+  intro s
+  have hn := newWith_ready existing rot comp ret mo hx
+  have h := runCalls_ready (cs.take k) _ hn.1 (fun c hc => hall c (List.mem_of_mem_take hc))
+  refine ⟨by show (runCalls _ _).durable = _; rw [h.2, hn.2], ?_⟩
+  obtain ⟨f, hf, _, _, hp, _⟩ := h.1
+  show FileSink.pendingText (runCalls _ _) = []
+  simp [FileSink.pendingText, hf, hp]
+
+/-- `delay=True`: the file is opened by the first `write` exactly as the constructor would have opened
+it – so every durability statement about `delay=False` sinks holds for delayed ones from the first call on -/
+theorem delayed_sink_first_write_opens (existing : Option Str) (rot comp ret : Bool) (b : Int) (mo : OpenMode)
+    (c : Call) (cs : List Call) :
+    runCalls (FileSink.newWith existing rot comp ret b mo true) (c :: cs) =
+      runCalls (FileSink.newWith existing rot comp ret b mo false) (c :: cs) := by
+  simp only [runCalls, List.foldl_cons]
+  rw [delayed_write]
+
+/-- … and a delayed sink that never received a message has opened nothing: no file appears, and
+`stop()` has nothing to compress -/
+theorem delayed_sink_without_messages_creates_nothing (rot comp ret : Bool) (b : Int) (mo : OpenMode) :
+    (FileSink.newWith none rot comp ret b mo true).stop.disk = [[]] ∧
+    (FileSink.newWith none rot comp ret b mo true).stop.file = none ∧
+    (FileSink.newWith none rot comp ret b mo true).stop.compressions = 0 := by
+  simp [FileSink.newWith, FileSink.blank, Gen.initOpens, FileSink.stop, stopPrims_eq, runPrims, runPrim, FileSink.disk,
+    Gen.endOfLife, Gen.compressionGuard]
+
+/-- claim (b) for EVERY `buffering` that `open()` accepts and every mode: after the program's calls
+(any texts, any rotation verdicts) `stop()` leaves the file closed with every text on disk – also for a
+block-buffered sink, whose texts had stayed in user space until then -/
+theorem any_buffering_any_mode_exit_durable (existing : Option Str) (rot comp ret : Bool) (b : Int) (hb : b ≠ 0)
+    (mo : OpenMode) (hx : mo = .exclusive → existing = none) (cs : List Call) :
+    let s := (runCalls (FileSink.newWith existing rot comp ret b mo false) cs).stop
+    s.file = none ∧ s.pendingText = [] ∧ s.durable = mo.keeps existing ++ texts cs := by
+  intro s
+  have hn := newWith_open existing rot comp ret b hb mo hx
+  have h1 := runCalls_content cs _ hn.1
+  have h2 := stop_open _ h1.1
+  exact ⟨h2.1, h2.2.2.1, by show FileSink.durable _ = _; rw [h2.2.1, h1.2, hn.2.1]⟩
+
+/-- why the property says "default buffering": with block buffering even a complete line is still in
+user space when the logging call returns (REFUTING WITNESS for any default other than `buffering=1`) -/
+theorem block_buffering_leaves_whole_lines_pending (existing : Option Str) (b : Int) (hb : b ≠ 0) (h1 : b ≠ 1)
+    (m : Str) :
+    let s := (FileSink.newWith existing false false false b .append false).write false m
+    s.durable = existing.getD [] ∧ s.pendingText = m := by
+  have e1 : (b == 1) = false := by simp [h1]
+  cases existing <;>
+    simp [FileSink.newWith, FileSink.blank, Gen.initOpens, FileSink.write, writePrims_eq, runPrims, runPrim,
+      FileSink.reopen, openMode, hb, e1, TextFile.write, FileSink.durable, FileSink.disk, FileSink.pendingText]
+
+/-- a call on a `watch=True` sink (any re-open verdict, any rotation verdict) -/
+abbrev WCall := Bool × Bool × Str
+
+def runWCalls (s : FileSink) (cs : List WCall) : FileSink := cs.foldl (fun s c => s.writeW c.1 c.2.1 c.2.2) s
+
+/-- `watch=True`: whenever another process moves the log file away (logrotate), the next `write`
+closes the stale file object and creates a new file – every acked text stays on disk (in the moved file
+or the new one), whole and in order, for every sequence of calls and every pattern of external moves
+and rotations; with no move a watched sink behaves exactly like an unwatched one -/
+theorem watched_sink_crash_preserves_acked (s0 : FileSink) (h0 : Ready s0) (cs : List WCall)
+    (hall : ∀ c ∈ cs, hasLineEnd c.2.2 = true) :
+    Ready (runWCalls s0 cs) ∧ (runWCalls s0 cs).durable = s0.durable ++ (cs.map (·.2.2)).flatten ∧
+    (runWCalls s0 cs).pendingText = [] := by
+  have key : ∀ (cs : List WCall) (s : FileSink), Ready s → (∀ c ∈ cs, hasLineEnd c.2.2 = true) →
+      Ready (runWCalls s cs) ∧ (runWCalls s cs).durable = s.durable ++ (cs.map (·.2.2)).flatten := by
+    intro cs
+    induction cs with
+    | nil => intro s h _; simp [runWCalls, h]
+    | cons c cs ih =>
+      intro s h hall
+      have h1 := writeW_ready s h c.1 c.2.1 c.2.2 (hall c (by simp))
+      have h2 := ih _ h1.1 (fun d hd => hall d (by simp [hd]))
+      simp only [runWCalls, List.foldl_cons] at h2 ⊢
+      refine ⟨h2.1, ?_⟩
+      rw [h2.2, h1.2]; simp
+  have := key cs s0 h0 hall
+  refine ⟨this.1, this.2, ?_⟩
+  obtain ⟨f, hf, _, _, hp, _⟩ := this.1
+  simp [FileSink.pendingText, hf, hp]
+
+theorem watched_sink_without_move_is_plain (s : FileSink) (r : Bool) (m : Str) : s.writeW false r m = s.write r m :=
+  writeW_not_moved s r m
+
+/-! ### (g) round 5 – the layers of a text stream (TextIOWrapper over BufferedWriter or a raw file) -/
+
+/-- claim (a) for file sinks WITHOUT the "below 8 KiB" caveat of the one-buffer model: on the layered
+stream `open(path, "a", buffering=1)` builds, a write whose text has a line end leaves BOTH user-space
+layers empty – for every size-driven spill behaviour of the two layers -/
+theorem line_buffered_layers_empty_after_line_end (l : Layered) (hc : l.closed = false)
+    (hl : l.lineBuffering = true) (s : Str) (hs : hasLineEnd s = true) (sp : Spill) :
+    (l.write s sp).bin = [] ∧ (l.write s sp).text = [] ∧ (l.write s sp).crash = l.all ++ s :=
+  Layered.write_line_end l hc hl s hs sp
+
+/-- the one-buffer `TextFile` the other theorems speak about is the EXACT abstraction of the layers
+when nothing spills by size: `write` and `flush` commute with the abstraction -/
+theorem text_file_abstracts_the_layers (l : Layered) (hb : l.buffered = true) (s : Str) :
+    (l.write s Spill.none).toTextFile = l.toTextFile.write s ∧ l.flush.toTextFile = l.toTextFile.flush :=
+  ⟨Layered.toTextFile_write l hb s, Layered.toTextFile_flush l⟩
+
+/-- `StreamSink.write` (REGENERATED statement list, REGENERATED flush decision) over ANY layering –
+buffered or raw, line buffered or not, write-through or not – with ANY spill behaviour and ANY text:
+when the call returns both layers are empty and the OS has everything -/
+theorem layered_stream_flushed_each_message (f : Layered) (staticFlush lineBufferingAttr writeThrough : Bool)
+    (hc : f.closed = false) (m : Str) (sp : Spill) :
+    let s : LStream := { file := f, flushable := Gen.flushableOf true staticFlush lineBufferingAttr writeThrough }
+    (s.sinkWrite m sp).file.bin = [] ∧ (s.sinkWrite m sp).file.text = [] ∧
+    (s.sinkWrite m sp).file.crash = f.all ++ m := by
+  intro s
+  have hf : s.flushable = true := by simp [s, flushable_iff_callable_flush]
+  have := lstream_write s hf hc m sp
+  exact ⟨this.1, this.2.1, this.2.2.1⟩
+
+/-- crash after the k-th call on a flushable stream of any layering: the OS holds exactly the first k
+texts (raw ones too) – for every spill behaviour -/
+theorem layered_stream_crash_preserves_acked (f : Layered) (staticFlush lineBufferingAttr writeThrough : Bool)
+    (hc : f.closed = false) (hb : f.bin = []) (ht : f.text = []) (ws : List (Str × Spill)) (k : Nat) :
+    let s : LStream := { file := f, flushable := Gen.flushableOf true staticFlush lineBufferingAttr writeThrough }
+    (runLStream s (ws.take k)).file.crash = f.os ++ textsL (ws.take k) ∧
+    (runLStream s (ws.take k)).file.bin = [] ∧ (runLStream s (ws.take k)).file.text = [] := by
+  intro s
+  have hf : s.flushable = true := by simp [s, flushable_iff_callable_flush]
+  exact runLStream_flushed (ws.take k) s hf hc hb ht
+
+/-- `write_through=True` over a RAW file needs no flush: every write is in the OS when it returns … -/
+theorem write_through_over_raw_is_durable (l : Layered) (hc : l.closed = false) (hw : l.writeThrough = true)
+    (hb : l.buffered = false) (s : Str) (sp : Spill) :
+    (l.write s sp).crash = l.all ++ s ∧ (l.write s sp).bin = [] ∧ (l.write s sp).text = [] := by
+  have := Layered.write_through_raw l hc hw hb s sp
+  exact ⟨this.2.2, this.1, this.2.1⟩
+
+/-- … but over a BufferedWriter it only reaches the buffer: REFUTING WITNESS for a flush decision that
+exempts streams reporting `write_through` (the text is lost by `os._exit` / SIGKILL) -/
+theorem write_through_over_buffer_needs_the_flush (l : Layered) (hc : l.closed = false)
+    (hw : l.writeThrough = true) (hb : l.buffered = true) (s : Str) (hs : hasLineEnd s = false) :
+    (l.write s Spill.none).crash = l.os ∧ (l.write s Spill.none).bin = l.bin ++ l.text ++ s := by
+  obtain ⟨os, bin, text, bu, lb, wt, cl⟩ := l
+  simp only at hc hw hb; subst hc hw hb
+  simp [Layered.write, Spill.none, hs, Layered.textFlush, Layered.binWrite, Layered.crash]
+
+/-- the WINDOW of finding F7, for every spill behaviour: after calls `a` (the last of which has a line
+end) followed by calls `b` without any line end, the disk holds everything up to the end of `a`, then a
+PREFIX `p` of the later texts, and the rest of them is still in the two user-space layers – nothing is
+lost other than by the crash, nothing reordered, nothing foreign (this is the shape the harness's F7
+classifier accepts; no size bound) -/
+theorem f7_window (l0 : Layered) (hc : l0.closed = false) (hl : l0.lineBuffering = true)
+    (a : List (Str × Spill)) (w : Str × Spill) (hw : hasLineEnd w.1 = true) (b : List (Str × Spill)) :
+    let l := runLayered l0 (a ++ [w] ++ b)
+    ∃ p, l.crash = l0.all ++ textsL (a ++ [w]) ++ p ∧ p ++ l.bin ++ l.text = textsL b := by
+  intro l
+  obtain ⟨p1, o1, w1, c1⟩ := runLayered_window a l0 hc
+  have hc1 : (runLayered l0 a).closed = false := by rw [c1.2.2.2]; exact hc
+  have hl1 : (runLayered l0 a).lineBuffering = true := by rw [c1.2.1]; exact hl
+  obtain ⟨e1, e2, e3⟩ := Layered.write_line_end (runLayered l0 a) hc1 hl1 w.1 hw w.2
+  have hc2 : ((runLayered l0 a).write w.1 w.2).closed = false := by
+    rw [(Layered.write_window _ hc1 w.1 w.2).choose_spec.2.2.2.2.2]; exact hc1
+  obtain ⟨p, o2, w2, _⟩ := runLayered_window b ((runLayered l0 a).write w.1 w.2) hc2
+  have hrun : l = runLayered ((runLayered l0 a).write w.1 w.2) b := by
+    simp [l, runLayered, List.foldl_append]
+  refine ⟨p, ?_, ?_⟩
+  · rw [hrun]
+    show (runLayered _ b).os = _
+    rw [o2, e3]
+    have : (runLayered l0 a).all = l0.all ++ textsL a := by
+      simp only [Layered.all, o1]
+      rw [List.append_assoc, List.append_assoc, ← List.append_assoc p1, w1]
+      simp
+    rw [this]; simp [textsL]
+  · rw [hrun, w2, e1, e2]; simp
+
+/-! ### (h) round 5 – from the logging call to the sink: the tail of `Handler.emit`, any interleaving -/
+
+/-- `StreamSink` calls the stream's `stop()` exactly when the stream has a callable `stop` (REGENERATED
+decision kernel and statement list of `StreamSink.stop`) -/
+theorem stoppable_iff_callable_stop (hasStop hasStaticStop hasFlush hasStaticFlush lb wt : Bool) (n : Nat) :
+    Gen.stoppableOf hasStop hasStaticStop hasFlush hasStaticFlush lb wt = hasStop ∧
+    streamStopCalls (Gen.stoppableOf hasStop hasStaticStop hasFlush hasStaticFlush lb wt) n =
+      (if hasStop then n + 1 else n) := by
+  simp [Gen.stoppableOf, streamStopCalls, Gen.streamStopOps, runStreamStopOp]
+
+/-- when a logging call returns (REGENERATED tail of `Handler.emit`): a handler without `enqueue` HAS
+written the text through its sink (this is what makes "the call returned" an acknowledgement), an
+enqueued one has appended it to its queue, and a stopped one has dropped it -/
+theorem emit_hands_over_before_return (h : Handler) (c : Call) :
+    (h.stopped = false → h.enqueue = false → (h.emit c).sink = h.sink.write c ∧ (h.emit c).queue = h.queue) ∧
+    (h.stopped = false → h.enqueue = true → (h.emit c).queue = h.queue ++ [c] ∧ (h.emit c).sink = h.sink) ∧
+    (h.stopped = true → h.emit c = h) := by
+  rw [emit_gen]
+  refine ⟨fun a b => by simp [a, b], fun a b => by simp [a, b], fun a => by simp [a]⟩
+
+/-- END TO END, for EVERY interleaving of the program's logging calls with the worker thread's steps:
+from a live handler (enqueued or not), after any such history followed by `stop()` – what the `atexit`
+callback does – the sink has received every text the calls handed over, in their order, exactly once,
+and only then was stopped; nothing is left queued, nothing hangs -/
+theorem any_interleaving_then_stop_delivers_everything (h : Handler) (hl : Live h) (evs : List Ev) :
+    let h' := (h.run evs).stop
+    h'.sink = ((logged evs).foldl Sink.write (h.queue.foldl Sink.write h.sink)).stop ∧
+    h'.queue = [] ∧ h'.stopped = true ∧ h'.hung = false := by
+  intro h'
+  obtain ⟨l, _, p⟩ := run_live evs h hl
+  have e : h' = (h.run evs).final := handler_stop _ l
+  obtain ⟨_, _, _, _, hh, _, _⟩ := l
+  rw [e]
+  refine ⟨?_, rfl, rfl, hh⟩
+  show ((h.run evs).pendingSink).stop = _
+  rw [p]; rfl
+
+/-- the two clauses joined for a file handler (enqueued or not, any `buffering`): whatever the
+interleaving of the program's calls with the worker, after `stop()` the file is closed and the disk holds
+every text of every call that returned – with or without a line end -/
+theorem program_then_exit_file_complete (h : Handler) (hl : Live h) (hq : h.queue = []) (f : FileSink)
+    (hs : h.sink = .file f) (ho : Open f) (evs : List Ev) :
+    ∃ f', ((h.run evs).stop).sink = .file f' ∧ f'.file = none ∧ f'.pendingText = [] ∧
+      f'.durable = f.durable ++ f.pendingText ++ texts (logged evs) := by
+  have h0 := (any_interleaving_then_stop_delivers_everything h hl evs).1
+  simp only [hq, List.foldl_nil, hs, sink_fold_file, Sink.stop] at h0
+  have h1 := runCalls_content (logged evs) f ho
+  have h2 := stop_open _ h1.1
+  exact ⟨_, h0, h2.1, h2.2.2.1, by rw [h2.2.1, h1.2]; rfl⟩
+
+/-- … and the same at the level of the interpreter's exit callbacks, for any number of handlers each
+with its own history -/
+theorem programs_then_exit_deliver_everything (hs : List (Handler × List Ev)) (hl : ∀ x ∈ hs, Live x.1) :
+    let lg : Logger := { handlers := hs.map (fun x => x.1.run x.2), removed := [] }
+    (interpreterExit lg).handlers = [] ∧
+    (interpreterExit lg).removed.map (·.sink) =
+      hs.map (fun x => ((logged x.2).foldl Sink.write (x.1.queue.foldl Sink.write x.1.sink)).stop) := by
+  intro lg
+  have hlive : ∀ h ∈ lg.handlers, Live h := by
+    intro h hh
+    simp only [lg, List.mem_map] at hh
+    obtain ⟨x, hx, rfl⟩ := hh
+    exact (run_live x.2 x.1 (hl x hx)).1
+  rw [exit_eq lg hlive]
+  refine ⟨rfl, ?_⟩
+  simp only [lg, List.nil_append, List.map_map]
+  apply List.map_congr_left
+  intro x hx
+  have := (run_live x.2 x.1 (hl x hx)).2.2
+  show ((x.1.run x.2).pendingSink).stop = _
+  rw [this]; rfl
+
+/-- a worker thread that has ENDED before the exit (a sink raised a `BaseException`): `stop()` does not
+hang (`join()` on a finished thread returns), the sink is stopped all the same – a file sink flushed,
+closed, with its end-of-life compression / retention – and what the worker had written is kept; the
+messages still queued are in no sink (nobody is left to read them) -/
+theorem dead_worker_exit_still_stops_the_sink (h : Handler) (he : h.enqueue = true) (ho : h.owner = true)
+    (hd : h.workerDead = true) (hh : h.hung = false) (f : FileSink) (hs : h.sink = .file f) (hf : Open f) :
+    h.stop.hung = false ∧ h.stop.stopped = true ∧ h.stop.queue = h.queue ∧
+    ∃ f', h.stop.sink = .file f' ∧ f'.file = none ∧ f'.pendingText = [] ∧ f'.durable = f.durable ++ f.pendingText ∧
+      f'.compressions = f.compressions + (if f.hasCompression && !f.hasRotation then 1 else 0) := by
+  rw [stop_dead_worker h he ho hd]
+  have h2 := stop_open f hf
+  obtain ⟨enq, own, q, sk, st, se, jo, hu, wd⟩ := h
+  simp only at hs he ho hd hh; subst hs
+  exact ⟨hh, rfl, rfl, f.stop, rfl, h2.1, h2.2.2.1, by rw [h2.2.1]; rfl, h2.2.2.2.1⟩
+
 /-! ### non-vacuity -/
 
 example : Ready (FileSink.new none true true false) := (new_ready _ _ _ _).1
@@ -309,5 +601,29 @@ example : ∃ h : Handler, Live h ∧ h.enqueue = true ∧ h.queue ≠ [] :=
 example : (writePrims true "a\n".toList).length = 6 := by decide
 example : hasLineEnd (emitText .static Gen.fileTerminator id
     { body := "é日本".toList, exc := "Traceback…".toList, raw := false }) = true := by decide
+
+-- round 5
+example : workerRunQ Gen.workerOps (.file (FileSink.new none false false false))
+    [.msg (false, "a\n".toList), .poison, .confirm, .msg (false, "b\n".toList)] =
+    (.file (runCalls (FileSink.new none false false false) [(false, "a\n".toList), (false, "b\n".toList)]), []) := by
+  decide
+example : (runWCalls (FileSink.new none false false false)
+    [(false, false, "a\n".toList), (true, false, "b\n".toList)]).disk = ["a\n".toList, "b\n".toList] := by decide
+example : (FileSink.newWith (some "old\n".toList) true false false 1 .truncate false).durable = [] := by decide
+example : (FileSink.newWith (some "old\n".toList) false false false 1 .append true).file = none := by decide
+example : ∃ (l : Layered) (sp : Spill), l.closed = false ∧ l.lineBuffering = true ∧ l.buffered = true ∧
+    (l.write "abc".toList sp).os = "xyab".toList ∧ (l.write "abc".toList sp).bin = "c".toList :=
+  ⟨{ os := "x".toList, bin := [], text := "y".toList, buffered := true, lineBuffering := true,
+     writeThrough := false, closed := false }, ⟨true, true, 1, 2⟩, by decide⟩
+example : ∃ (h : Handler) (evs : List Ev), Live h ∧ h.enqueue = true ∧ (logged evs).length = 2 ∧
+    (h.run evs).queue.length = 1 :=
+  ⟨{ enqueue := true, owner := true, queue := [], sink := .file (FileSink.new none false true false),
+     stopped := false, sentinel := false, joined := false, hung := false },
+   [.log (false, "a\n".toList), .worker, .log (false, [])], by simp [Live], rfl, rfl, by decide⟩
+example : ∃ h : Handler, h.enqueue = true ∧ h.owner = true ∧ h.workerDead = true ∧ h.hung = false ∧ h.queue ≠ [] ∧
+    ∃ f, h.sink = .file f ∧ Open f :=
+  ⟨{ enqueue := true, owner := true, queue := [(false, "lost\n".toList)],
+     sink := .file (FileSink.new none false true false), stopped := false, sentinel := false, joined := false,
+     hung := false, workerDead := true }, rfl, rfl, rfl, rfl, by simp, _, rfl, (new_ready none false true false).1.open⟩
 
 end C09
